@@ -814,6 +814,17 @@ func (e *SpecEnv) call(x *SpecExpr, inOld bool) Val {
 		}
 		dom, _, _, _, _ := vc.mapKeys(mt)
 		return Val{sAnd(sNot(sEq(m.S, "0")), sSelect(sSelect(vc.curIn(st, dom), m.S), k.S)), bt, SBool}
+	case "runeCount":
+		// runeCount(s): number of characters (code points) of the text s, i.e. len([]rune(s))
+		a := e.ex(args[0], inOld)
+		vc.declareRuneFns()
+		return Val{sx("gs.runeCount", a.S), types.Typ[types.Int], SInt}
+	case "runeAt":
+		// runeAt(s, i): the i-th character of s, i.e. []rune(s)[i]
+		a := e.ex(args[0], inOld)
+		i := e.ex(args[1], inOld)
+		vc.declareRuneFns()
+		return Val{sx("gs.runeAtIdx", a.S, i.S), types.Typ[types.Rune], SInt}
 	case "feq":
 		a := e.ex(args[0], inOld)
 		b := e.ex(args[1], inOld)
